@@ -245,4 +245,23 @@ pub fn generate(thorough: bool, seed: u64, em: &mut Emitter) {
     for (doc, claims, paths) in docs {
         em.case("yaml", json!({"doc": doc, "claims": claims, "paths": paths, "expect_ok": true, "nontrivial": true, "tag": "anchors_aliases_merge_key"}));
     }
+    // three and four tagged nodes inside one another, with untagged levels and sequences of mappings in between: every
+    // enclosed path before the path that encloses it, at every level
+    let docs: Vec<(&str, Value, Vec<&str>)> = vec![
+        ("!sd address:\n  !sd geo:\n    !sd lat: 1\n    lon: 2\n  street: S\n",
+         json!({"address": {"geo": {"lat": 1, "lon": 2}, "street": "S"}}),
+         vec!["/address/geo/lat", "/address/geo", "/address"]),
+        ("!sd a:\n  x:\n    !sd b:\n      y:\n        !sd c:\n          !sd d: 1\n",
+         json!({"a": {"x": {"b": {"y": {"c": {"d": 1}}}}}}),
+         vec!["/a/x/b/y/c/d", "/a/x/b/y/c", "/a/x/b", "/a"]),
+        ("!sd list:\n  - !sd m:\n      !sd n: 1\n    o: 2\n  - p: 3\n",
+         json!({"list": [{"m": {"n": 1}, "o": 2}, {"p": 3}]}),
+         vec!["/list/0/m/n", "/list/0/m", "/list"]),
+        ("z: 0\n!sd a:\n  !sd b:\n    !sd c: 1\n  !sd e:\n    !sd f: 2\n",
+         json!({"z": 0, "a": {"b": {"c": 1}, "e": {"f": 2}}}),
+         vec!["/a/b/c", "/a/b", "/a/e/f", "/a/e", "/a"]),
+    ];
+    for (doc, claims, paths) in docs {
+        em.case("yaml", json!({"doc": doc, "claims": claims, "paths": paths, "expect_ok": true, "nontrivial": true, "tag": "tags_nested_three_deep"}));
+    }
 }
